@@ -14,6 +14,7 @@ import (
 	"os"
 	"reflect"
 	"strconv"
+	"strings"
 
 	"github.com/datastax/go-cassandra-native-protocol/datacodec"
 	"github.com/datastax/go-cassandra-native-protocol/primitive"
@@ -142,7 +143,7 @@ func runCase(id string, t *ctype, r *rep, a *aval, ver primitive.ProtocolVersion
 		return rec
 	}
 	src := r.mk(a)
-	if gty, ok := gtyOf(t, r.gt); ok && len(a.coq()) < 3000 {
+	if gty, ok := gtyOf(t, r.gt); ok && len(a.coq()) < 3000 && !strings.Contains(r.String(), "structmap") {
 		rec.SrcGty, rec.SrcG = gty, gvalOf(t, r.gt, src)
 	}
 	var enc []byte
